@@ -33,6 +33,16 @@ def handle : List String → Verdict
         nontrivial := wire.length > 0, tags := [tag, "end:" ++ (if isDecode then "decode-error" else kind)],
         sig := s!"stream;{tag};{if isDecode then "decode" else kind}" }
     | _, _, _ => .badOp
+  | ["wcancel", kS, wireH, b1H, b2H, err1S, err2S] =>
+    match hexField wireH, hexField b1H, hexField b2H with
+    | some wire, some b1, some b2 =>
+      let (frames, err) := readAll wire
+      -- the cancelled write is all or nothing; the write after it is complete
+      let ok := err.isNone && err2S == "0" && (frames == [b1, b2] || (frames == [b2] && err1S == "1"))
+      { predfail := if ok then none else
+          some s!"a write cancelled during transport write #{kS} left the stream in pieces: {frames.length} frame(s) readable, reader error={err.map errName}, first write failed={err1S}, second write failed={err2S}",
+        nontrivial := true, tags := ["write-cancel"], sig := "wcancel" }
+    | _, _, _ => .badOp
   | ["rpc", modesS, outsS, sentS] =>
     -- outs: thread:id:res ; res = r<payload id> | cancelled | err:…
     let outs := (outsS.splitOn ";").filterMap fun o =>
